@@ -25,7 +25,7 @@ EVAL_COUNTER = "buckets_or_faults_judged"
 REQUIRED = ["buckets_or_faults_judged", "buckets_judged", "fault_runs", "chains_overwritten", "eager_buckets", "disabled_checked"]
 CASE_TIMEOUT = 150
 
-KINDS = ["value", "none", "large", "exc", "timeout", "chain2", "chain3_fail", "recurring", "eager_ack_res", "eager_nack_exc", "eager_retry_res", "eager_ack_two_sets", "disabled", "disabled_eager"]
+KINDS = ["value", "none", "large", "exc", "timeout", "chain2", "chain3_fail", "recurring", "eager_ack_res", "eager_nack_exc", "eager_retry_res", "eager_ack_two_sets", "eager_exc_then_res", "eager_res_exc_res", "disabled", "disabled_eager"]
 
 
 def gen_cases(tier, seed):
@@ -79,6 +79,12 @@ def plan_job(kind, i, rnd):
         return {"by_attempt": [{"do": "eager", "action": "retry", "next": 0.3, "pre": [["set_result", "try-again"]]}, {"do": "ok", "ret": val}]}, kw, {"success": True, "data": enc(val), "exception": None}, 2
     if kind == "eager_ack_two_sets":
         return {"do": "eager", "action": "ack", "pre": [["set_result", "first"], ["callback", "c1-sync"], ["set_exception", "ValueError", "second"]]}, kw, {"success": False, "data": "second", "exception": "ValueError"}, 1
+    if kind == "eager_exc_then_res":
+        # the last word counts, in either order
+        act = rnd.choice(["ack", "nack", "reject"])
+        return {"do": "eager", "action": act, "pre": [["set_exception", "ValueError", "primary failed"], ["callback", "c1-sync"], ["set_result", val]], "then": {"do": "ok", "ret": val}}, kw, {"success": True, "data": enc(val), "exception": None}, (2 if act == "reject" else 1)
+    if kind == "eager_res_exc_res":
+        return {"do": "eager", "action": "ack", "pre": [["set_result", "first"], ["set_exception", "KeyError", "mid"], ["set_result", val]]}, kw, {"success": True, "data": enc(val), "exception": None}, 1
     if kind == "disabled":
         kw["store_result"] = False
         return {"do": "ok", "ret": val}, kw, "absent", 1
